@@ -309,6 +309,44 @@ func c15EcoUnit(name string, tier string) core.Unit {
 				}
 			}
 		}
+		// long arguments: the library has no length limit, so neither may the front end. Every
+		// spelling below is judged by the library itself (accepted or not), at lengths straddling the
+		// usual buffer sizes.
+		for _, n := range []int{31, 65, 129, 257, 1025, 4097} {
+			longs := []string{
+				pool[0] + strings.Repeat(" ", n),
+				strings.Repeat("0", n) + pool[0],
+				pool[0] + "." + strings.Repeat("1.", n/2) + "1",
+				pool[0] + "-" + strings.Repeat("a", n),
+				pool[0] + "+" + strings.Repeat("b", n),
+				pool[0] + strings.Repeat("1", n),
+			}
+			for _, lv := range longs {
+				for _, t := range []struct {
+					cmd  string
+					args []string
+				}{{"compare", []string{lv, pool[1]}}, {"compare", []string{pool[1], lv}}, {"contains", []string{pool[4], lv}}, {"sort", []string{pool[2], lv, pool[1]}}} {
+					ok, exact, sorted := c15Expect(e, t.cmd, t.args)
+					r.Add("states", 1)
+					r.Add("long_argument_vectors", 1)
+					c15Check(x, name, append([]string{name, t.cmd}, t.args...), ok, exact, sorted)
+				}
+			}
+			for _, lr := range []string{pool[4] + strings.Repeat(" ", n), strings.Repeat(" ", n) + pool[5], ">=" + strings.Repeat("0", n) + pool[0] + gen.SyntaxTable[name].SingleSuffix} {
+				ok, exact, _ := c15Expect(e, "contains", []string{lr, pool[1]})
+				r.Add("states", 1)
+				r.Add("long_argument_vectors", 1)
+				c15Check(x, name, []string{name, "contains", lr, pool[1]}, ok, exact, nil)
+			}
+			// many arguments of ordinary length
+			many := []string{}
+			for i := 0; i < n/4; i++ {
+				many = append(many, pool[i%3])
+			}
+			ok, exact, sorted := c15Expect(e, "sort", many)
+			r.Add("states", 1)
+			c15Check(x, name, append([]string{name, "sort"}, many...), ok, exact, sorted)
+		}
 		// argument order of contains: pools where swapping changes the outcome
 		rg, ver := pool[4], pool[1]
 		okA, exA, _ := c15Expect(e, "contains", []string{rg, ver})
